@@ -29,6 +29,9 @@ def run(chk):
     for i in range(n):
         d = chk.rng.choice([1, 2, 2, 3, 3, 4] if not thorough else [2, 3, 3, 4, 4, 5])
         doc = evalgen.gen_doc(chk.rng)
+        if chk.rng.random() < 0.12:
+            import c16
+            doc = c16.numkeys(doc, chk.rng)      # string keys spelled like numbers / booleans / null stay strings
         g.set_doc(doc)          # selectors mostly follow the document, so most programs do not die at the first step
         cases.append((g.expr(d), doc))
     # directed: integers that only differ beyond binary64 precision, at the int64 edges, in every comparison
